@@ -112,6 +112,38 @@ def impl_cmdline(pp, c):
         return None, type(e).__name__
 
 
+def _impl_eval(pp, p, text, want_truth=True, ifnode=None):
+    """expansion of `text` (+ truth of `#if text`) for the prepared platform p, under the time limit.  `ifnode`: an already parsed
+    (shared) IfNode to evaluate instead of parsing `#if text` afresh"""
+    out = {}
+    old = signal.signal(signal.SIGALRM, _alarm)
+    signal.setitimer(signal.ITIMER_REAL, TIME_LIMIT)
+    try:
+        try:
+            ex = pp.MacroExpander(p).expand(pp.Lexer(text).tokenize())
+            out["ok"] = [_tok(t) for t in ex]
+        except _Timeout:
+            return {"timeout": True}
+        except Exception as e:  # noqa
+            out["exc"] = type(e).__name__
+        if want_truth:
+            # the path finder.find takes for `#if text`
+            try:
+                node = ifnode if ifnode is not None else pp.DirectiveParser(pp.Lexer("#if " + text).tokenize()).parse()
+                if isinstance(node, pp.IfNode):
+                    out["truth"] = bool(node.evaluate_for_platform(platform=p, filename="x", state=None))
+                else:
+                    out["truth"] = "EXC:NotAnIf"
+            except _Timeout:
+                return {"timeout": True}
+            except Exception as e:  # noqa
+                out["truth"] = "EXC:" + type(e).__name__
+    finally:
+        signal.setitimer(signal.ITIMER_REAL, 0)
+        signal.signal(signal.SIGALRM, old)
+    return out
+
+
 def impl_run(cb, case, want_truth=True):
     """Real code on one case -> {"ok": tokens, "truth": ...} | {"exc": name} | {"defexc": name} | {"timeout": True}"""
     from codebasin import platform
@@ -131,33 +163,58 @@ def impl_run(cb, case, want_truth=True):
             node.evaluate_for_platform(platform=p, filename="x", state=None)
         except Exception as e:  # noqa
             return {"defexc": type(e).__name__}
-    out = {}
-    old = signal.signal(signal.SIGALRM, _alarm)
-    signal.setitimer(signal.ITIMER_REAL, TIME_LIMIT)
-    try:
+    return _impl_eval(pp, p, case["text"], want_truth)
+
+
+def impl_history(cb, case, steps, want_truth=True):
+    """The `#define` directives of the case are parsed ONCE (the tree of a source file is parsed once and shared by every platform
+    and translation unit); then, for every step, a new Platform receives the command-line definitions (case's + the step's own),
+    the shared directive nodes are evaluated for it (what the associator does on its walk) and the text is expanded.  The `#if`
+    node is shared, too.  -> one impl_run-shaped result per step"""
+    from codebasin import platform
+    from codebasin import preprocessor as pp
+
+    nodes, deferr = [], None
+    for d in case.get("defs", []):
         try:
-            ex = pp.MacroExpander(p).expand(pp.Lexer(case["text"]).tokenize())
-            out["ok"] = [_tok(t) for t in ex]
-        except _Timeout:
-            return {"timeout": True}
+            node = pp.DirectiveParser(pp.Lexer("#define " + d).tokenize()).parse()
+            if not isinstance(node, pp.DefineNode):
+                deferr = "NotADefine"
+                break
+            nodes.append(node)
         except Exception as e:  # noqa
-            out["exc"] = type(e).__name__
-        if want_truth:
-            # the path finder.find takes for `#if text`
-            try:
-                node = pp.DirectiveParser(pp.Lexer("#if " + case["text"]).tokenize()).parse()
-                if isinstance(node, pp.IfNode):
-                    out["truth"] = bool(node.evaluate_for_platform(platform=p, filename="x", state=None))
-                else:
-                    out["truth"] = "EXC:NotAnIf"
-            except _Timeout:
-                return {"timeout": True}
-            except Exception as e:  # noqa
-                out["truth"] = "EXC:" + type(e).__name__
-    finally:
-        signal.setitimer(signal.ITIMER_REAL, 0)
-        signal.signal(signal.SIGALRM, old)
-    return out
+            deferr = type(e).__name__
+            break
+    ifnode = None
+    if want_truth and deferr is None:
+        try:
+            ifnode = pp.DirectiveParser(pp.Lexer("#if " + case["text"]).tokenize()).parse()
+        except Exception:  # noqa
+            ifnode = None
+    res = []
+    for extra in steps:
+        if deferr:
+            res.append({"defexc": deferr})
+            continue
+        p = platform.Platform("p%d" % len(res), "/")
+        r = None
+        for c in list(case.get("cmd", [])) + list(extra):
+            m, err = impl_cmdline(pp, c)
+            if err:
+                r = {"defexc": err}
+                break
+            p.define(m.name, m)
+        if r is None:
+            for node in nodes:
+                try:
+                    node.evaluate_for_platform(platform=p, filename="x", state=None)
+                except Exception as e:  # noqa
+                    r = {"defexc": type(e).__name__}
+                    break
+        if r is None:
+            r = _impl_eval(pp, p, case["text"], want_truth, ifnode=ifnode)
+        res.append(r)
+    return res
 
 
 def impl_truth_of_tokens(spell):
@@ -807,15 +864,18 @@ def fragment_share(ctx, drv, case, small, S):
         ctx.dist["proved_fragment:outside"] += 1
 
 
-def check_case(ctx, drv, cb, case, gcc=False):
+def check_case(ctx, drv, cb, case, gcc=False, I=None, R=None, extra=None, prefix=""):
+    """`I`: an implementation result obtained elsewhere (a step of a history) instead of a fresh impl_run; `R`: the driver's reply
+    for exactly this (defs, cmd, text) if already known; `extra`: fields added to the stored case (what a replay needs);
+    `prefix`: put in front of the description of a deviation"""
     flags = case.get("flags", [])
     obs = {}
     t0 = time.time()
-    I = impl_run(cb, case)
+    if I is None:
+        I = impl_run(cb, case)
     impl_time = time.time() - t0
     want_old = ctx.dist["cases"] % 10 == 0  # three-way cross-check: the design-phase monadic port (PP/ExpandOld.lean; no longer used by any pipeline) vs MX.cbiExpand vs the code
-    R = None
-    if drv is not None and "timeout" not in I:
+    if R is None and drv is not None and "timeout" not in I:
         if impl_time > EXPENSIVE:
             ctx.dist["expensive(model and spec not run)"] += 1
         else:
@@ -827,9 +887,11 @@ def check_case(ctx, drv, cb, case, gcc=False):
     ctx.dist["cases"] += 1
     small = {k: case[k] for k in ("defs", "cmd", "text") if case.get(k)}
     small["origin"] = case.get("origin", "random")
+    if extra:
+        small.update(extra)
     # --- termination
     if "timeout" in I:
-        ctx.violation(f"expansion did not return within {TIME_LIMIT} s", small)
+        ctx.violation(prefix + f"expansion did not return within {TIME_LIMIT} s", small)
         return
     if R is None:
         return
@@ -900,7 +962,7 @@ def check_case(ctx, drv, cb, case, gcc=False):
     if what:
         obs["gcc_validated"] = gcc
         obs["drv"] = drv
-        r = classify_deviation(ctx, case, small, what, obs)
+        r = classify_deviation(ctx, case, small, prefix + what, obs)
         if r == "unspecified":
             ctx.dist["impl!=spec but ==gcc (unspecified nesting, not judged)"] += 1
             ctx.extra.setdefault("spec_vs_gcc_disagreements", []).append(small)
@@ -974,6 +1036,532 @@ def definition_pairs(rng, n):
 
 
 # --------------------------------------------------------------------------------------------
+# shapes: a painted (never-expand-again) name as an operand of `##`
+# --------------------------------------------------------------------------------------------
+def gen_paste_painted(rng, arith=False):
+    """A macro passes a name that is under replacement - its own or an enclosing macro's - through a pre-expanding indirection
+    (J -> J_), so that the name is scanned while disabled and marked, and the marked token is then an operand (left or right) of
+    `##`.  The result of `##` is a new token (C11 6.10.3.3p3): replaced again if it names an enabled macro (object- or
+    function-like), left alone if it spells a name under replacement.  Controls: no indirection (operand never scanned), result
+    not a macro, result re-creating the disabled name, result referring back to the disabled name."""
+    base = rng.choice(["V", "W", "AB", "LEVEL", "N", "VER"])
+    swapped = rng.random() < 0.25            # the marked name is the RIGHT operand
+    aff = rng.choice(["D_", "P", "_x"]) if swapped else rng.choice(["_D", "_2", "1", "2", "_OF", "_x"])
+    pasted = (aff + base) if swapped else (base + aff)
+    order = ("b ## a" if swapped else "a ## b")
+    sp = rng.choice([" ## ", "##", " ##", "## "])
+    defs = ["J_(a, b) " + order.replace(" ## ", sp) + rng.choice(["", "", "", " b" if swapped else " a"])]
+    ind = rng.choice(["one", "one", "one", "two", "variadic", "none", "obj"])
+    jname = "J"
+    if ind == "one":
+        defs.append("J(a, b) J_(a, b)")
+    elif ind == "two":
+        defs += ["J(a, b) J1(a, b)", "J1(a, b) J_(a, b)"]
+    elif ind == "variadic":
+        defs.append(rng.choice(["J(...) J_(__VA_ARGS__)", "J(a, ...) J_(a, __VA_ARGS__)", "J(r...) J_(r)"]))
+    elif ind == "obj":
+        defs += ["J(a, b) J_(a, b)", "I(x) x"]
+    else:
+        jname = "J_"                           # control: the operand of ## is not pre-expanded, hence never marked
+    funlike = (not arith and rng.random() < 0.3) or (arith and rng.random() < 0.2)
+    who = rng.choice(["self", "self", "outer", "outer2"])
+    arg = base if ind != "obj" or rng.random() < 0.5 else "I(%s)" % base
+    use = "%s(%s, %s)" % (jname, arg, aff)
+    pre = rng.choice(["", "", "", "1 +", "("])
+    post = {"": "", "1 +": "", "(": ")"}[pre] if rng.random() < 0.8 else {"": "+ 1", "1 +": "* 2", "(": ") + 1"}[pre]
+    if funlike:
+        body = " ".join(x for x in (pre, use + rng.choice(["(x)", " (x)", "(x + 1)"]), post) if x)
+        head = base + "(x)"
+    else:
+        body = " ".join(x for x in (pre, use, post) if x)
+        head = base
+    if who == "self":
+        defs.append(head + " " + body)
+    elif who == "outer":      # the name marked is the one of the enclosing macro
+        defs += [head + " " + ("M(x)" if funlike else "M"), ("M(x) " if funlike else "M ") + body]
+    else:
+        defs += [head + " " + ("M(x)" if funlike else "M"), ("M(x) " if funlike else "M ") + ("M2(x)" if funlike else "M2 + 0"),
+                 ("M2(x) " if funlike else "M2 ") + body]
+    res = rng.choice(["obj", "obj", "obj", "fun", "fun", "back", "chain", "none", "selfname"])
+    if funlike and res == "obj" and rng.random() < 0.6:
+        res = "fun"
+    if res == "obj":
+        defs.append(pasted + " " + rng.choice(["3", "5", "(2 + 1)", "7"]))
+    elif res == "fun":
+        defs.append(pasted + "(y) " + rng.choice(["(y + 1)", "((y) * 2)", "y", "(y + %s)" % base]))
+    elif res == "back":     # refers back to the disabled name: stays unreplaced
+        defs.append(pasted + " " + rng.choice(["%s + 1" % base, "(%s)" % base, "2 * %s" % base]))
+    elif res == "chain":    # a second paste of a marked name
+        aff2 = "_E"
+        defs.append(pasted + " " + "%s(%s, %s)" % (jname, base, aff2))
+        defs.append((base + aff2) + " " + rng.choice(["4", "6"]))
+    elif res == "selfname":  # the paste re-creates a name under replacement: must NOT be replaced again
+        half = max(1, len(base) // 2) if len(base) > 1 else 0
+        if half:
+            defs = [d for d in defs if not d.startswith(head + " ")]
+            l, r = base[:half], base[half:]
+            defs.append(head + " " + "%s(%s, %s) + 2" % (jname, r, l) if swapped else head + " " + "%s(%s, %s) + 2" % (jname, l, r))
+    rng.shuffle(defs)
+    callarg = rng.choice(["4", "1", "2", base, "(3)"])
+    pool = [base, base, base + " + 1", "( %s )" % base, "%s(%s, %s)" % (jname, base, aff), pasted, "J_(%s, %s)" % (base, aff)]
+    if funlike:
+        pool = [base + "(%s)" % callarg, base + "(%s)" % callarg, base + " (%s)" % callarg, base, "%s(%s, %s)(%s)" % (jname, base, aff, callarg),
+                base + "(%s(2))" % base, pasted + "(1)"]
+    if arith:
+        text = rng.choice(pool[:3] if not funlike else pool[:3]) + " " + rng.choice(["==", "==", "<", ">=", "!="]) + " " + str(rng.choice([0, 1, 2, 3, 4, 5, 6, 7, 8]))
+    else:
+        text = " ".join(rng.choice(pool) for _ in range(rng.randint(1, 3)))
+    flags = _flags_of(defs, text) | {"targeted:paste_painted", "recursion", "painted:" + ind, "painted_result:" + res}
+    return {"defs": defs, "cmd": [], "text": text, "flags": sorted(flags)}
+
+
+# --------------------------------------------------------------------------------------------
+# shapes: variable arguments forwarded to other macros (counting / overloading idioms)
+# --------------------------------------------------------------------------------------------
+VF_RECEIVERS = [
+    ("R2(a, b)", ["(a + b)", "((a) * 10 + (b))", "(a - b)"], 2),
+    ("R3(a, b, c)", ["(a + b * c)", "((a) - (b) + (c))", "(a + b + c)"], 3),
+    ("P2(a, b, ...)", ["b"], 2),
+    ("P3(a, b, c, ...)", ["c"], 3),
+    ("P5(a, b, c, d, n, ...)", ["n"], 5),
+    ("L(a, rest...)", ["(a + 0 rest)", "a"], 1),
+]
+
+
+def gen_vforward(rng, conds=False):
+    """variadic front macros whose variable arguments (and the commas between them) are forwarded to another macro's argument
+    list: V(...) R(__VA_ARGS__), the PP_NARG counting idiom V(...) P5(__VA_ARGS__, 4, 3, 2, 1, 0), named variadics, an applied
+    macro name f(__VA_ARGS__); invoked with 0 .. 4 variable arguments.  conds=True: 2-5 texts of the form `call <op> k`."""
+    defs = []
+    recv = rng.sample(VF_RECEIVERS, rng.randint(2, 4))
+    for head, bodies, _k in recv:
+        defs.append(head + " " + rng.choice(bodies))
+    rnames = [(h.split("(")[0], k, "..." in h) for h, _b, k in recv]
+    fronts = []
+    for i in range(rng.randint(1, 3)):
+        nm = ["V", "W", "U"][i]
+        rn, k, rvar = rng.choice(rnames)
+        va = rng.choice(["__VA_ARGS__", "__VA_ARGS__", "args"])
+        dots = "..." if va == "__VA_ARGS__" else "args..."
+        form = rng.choice(["fwd", "fwd", "pad", "pad", "fixed+fwd", "apply", "prefix", "nest"] + ([] if conds else ["hash", "paste"]))
+        if form == "fwd":
+            d, nvar = "%s(%s) %s(%s)" % (nm, dots, rn, va), (k, k + (2 if rvar else 0))
+        elif form == "pad":
+            pad = [str(x) for x in range(k - 1, -1, -1)]
+            d, nvar = "%s(%s) %s(%s, %s)" % (nm, dots, rn, va, ", ".join(pad)), (1, k)
+        elif form == "fixed+fwd":
+            d, nvar = "%s(x, %s) (x + %s(%s))" % (nm, dots, rn, va), (k, k + (1 if rvar else 0))
+        elif form == "apply":
+            d, nvar = "%s(f, %s) f(%s)" % (nm, dots, va), (k, k)
+        elif form == "prefix":
+            d, nvar = "%s(%s) %s(K, %s)" % (nm, dots, rn, va), (max(0, k - 1), k if rvar else max(0, k - 1))
+        elif form == "nest" and fronts:
+            d, nvar = "%s(%s) %s(%s)" % (nm, dots, fronts[-1][0], va), fronts[-1][2]
+        elif form == "hash":
+            d, nvar = "%s(x, %s) x #%s" % (nm, dots, va), (0, 3)
+        elif form == "paste":
+            d, nvar = "%s(x, %s) x ## %s q" % (nm, dots, va), (0, 3)
+        else:
+            d, nvar = "%s(%s) %s(%s)" % (nm, dots, rn, va), (k, k)
+        defs.append(d)
+        fronts.append((nm, form, nvar, rn))
+    rng.shuffle(defs)
+    argpool = ["1", "2", "3", "K", "(1 + 1)", "5", "R0", "(2, 3)"]
+
+    def call():
+        nm, form, (lo, hi), rn = rng.choice(fronts)
+        n = rng.randint(lo, hi) if rng.random() < 0.85 else rng.randint(0, 4)
+        args = [rng.choice(argpool) for _ in range(n)]
+        if args and rng.random() < 0.1:
+            args[rng.randrange(len(args))] = ""
+        if args and rng.random() < 0.2:
+            other = rng.choice(fronts)
+            args[rng.randrange(len(args))] = "%s(%s)" % (other[0], ", ".join(rng.choice(argpool[:4]) for _ in range(rng.randint(other[2][0], other[2][1]))))
+        if form in ("fixed+fwd", "hash", "paste"):
+            args = [rng.choice(["1", "2", "K"])] + args
+        elif form == "apply":
+            args = [rn] + args
+        return "%s(%s)" % (nm, rng.choice([", ", ",", " , "]).join(args))
+
+    cmd = []
+    r = rng.random()
+    if r < 0.3:
+        defs.append("K " + rng.choice(["1", "2", "4"]))
+    elif r < 0.5:
+        cmd.append("K=" + rng.choice(["1", "3"]))
+    if conds:
+        texts = [call() + " " + rng.choice(["==", "==", "==", "<", ">=", "!=", ">"]) + " " + str(rng.choice([0, 1, 2, 3, 4, 5, 6, 7, 10, 12, 21]))
+                 for _ in range(rng.randint(2, 5))]
+    else:
+        texts = [" ".join(call() for _ in range(rng.randint(1, 3)))]
+    flags = _flags_of(defs, " ".join(texts)) | {"targeted:vforward"} | {"vforward:" + f[1] for f in fronts}
+    return {"defs": defs, "cmd": cmd, "texts": texts, "flags": sorted(flags)}
+
+
+# --------------------------------------------------------------------------------------------
+# histories: the same `#define` directive nodes evaluated for several platforms / translation units
+# --------------------------------------------------------------------------------------------
+STEP_CMDS = [[], [], [], ["q=1"], ["q=2"], ["r=q"], ["K=2"], ["K=5"], ["q=1", "K=3"]]
+
+
+def history_steps(rng, case):
+    """per-evaluation extra command-line definitions (names the table of the case does not define)"""
+    taken = {d[0] for d in all_defs(case)}
+    k = rng.choice([2, 2, 3])
+    if rng.random() < 0.5:
+        return [[] for _ in range(k)]
+    out = []
+    for _ in range(k):
+        out.append([c for c in rng.choice(STEP_CMDS) if c.split("=")[0] not in taken])
+    return out
+
+
+def gen_history_case(rng):
+    r = rng.random()
+    if r < 0.30:
+        c = gen_case(rng, bias={"variadic": 0.45})
+        c["origin"] = "history-nodes:random"
+    elif r < 0.45:
+        c = gen_case(rng, arith=True, bias={"variadic": 0.45})
+        c["origin"] = "history-nodes:arith"
+    elif r < 0.60:
+        c = gen_targeted(rng)
+        c["origin"] = "history-nodes:targeted"
+    elif r < 0.90:
+        v = gen_vforward(rng, conds=rng.random() < 0.3)
+        c = {"defs": v["defs"], "cmd": v["cmd"], "text": v["texts"][0], "flags": v["flags"], "origin": "history-nodes:vforward"}
+    else:
+        c = gen_paste_painted(rng, arith=rng.random() < 0.3)
+        c["origin"] = "history-nodes:painted"
+    return c
+
+
+def run_node_history(ctx, drv, cb, job):
+    """job = case + "steps" (list of extra -D lists).  Every step is judged like a fresh case: against the Prosser spec for the
+    table in force at that step (known-finding classes and the gcc second opinion included), and against the model."""
+    case = {k: job[k] for k in ("defs", "cmd", "text") if k in job}
+    case.setdefault("defs", [])
+    case.setdefault("cmd", [])
+    steps = job["steps"]
+    Is = impl_history(cb, case, steps)
+    cache = {}
+    ctx.dist["history-nodes:jobs"] += 1
+    if sum(1 for x in ctx.samples if "steps" in x) < 2:
+        ctx.sample({"origin": job.get("origin", "history-nodes"), "defs": case["defs"], "cmd": case["cmd"], "text": case["text"], "steps": steps}, cap=10)
+    ctx.dist["history-nodes:evaluations=%d" % len(steps)] += 1
+    nv = len(ctx.violations)
+    for i, (extra, I) in enumerate(zip(steps, Is)):
+        c = {"defs": case["defs"], "cmd": case["cmd"] + list(extra), "text": case["text"], "flags": job.get("flags", []),
+             "origin": job.get("origin", "history-nodes")}
+        key = json.dumps(c["cmd"])
+        R = cache.get(key)
+        if R is None and drv is not None and "timeout" not in I:
+            R = ask(ctx, drv, {"op": "c03", "defs": c["defs"], "cmd": c["cmd"], "text": c["text"], "old": False})
+            cache[key] = R
+        if R is None and "timeout" not in I:
+            continue
+        check_case(ctx, drv, cb, c, I=I, R=R,
+                   extra={"cmd": case["cmd"], "history": {"kind": "nodes", "steps": steps, "step": i}},
+                   prefix=f"[evaluation {i + 1} of {len(steps)} of the same parsed #define directives, new Platform each"
+                          + (f", -D {' -D '.join(case['cmd'] + list(extra))}" if case["cmd"] or extra else "") + "] ")
+        ctx.dist["history-nodes:steps"] += 1
+        if len(ctx.violations) > nv:
+            break  # one failing step per history is enough
+
+
+def _cond_truth_from(R, which):
+    """truth value of a controlling expression from the driver's reply: the expansion (`spec` = Prosser, `model`) evaluated by
+    the real ExpressionEvaluator (C02 judges the evaluator); None when there is no expansion or it is not an expression"""
+    s = R.get(which, {})
+    if "ok" not in s:
+        return None
+    t = impl_truth_of_tokens(spell(norm_spec(s["ok"]) if which == "spec" else norm_model(s["ok"])))
+    return t if isinstance(t, bool) else None
+
+
+def gen_find_history_job(rng):
+    r = rng.random()
+    if r < 0.55:
+        v = gen_vforward(rng, conds=True)
+        defs, cmd, conds, flags, src = v["defs"], v["cmd"], v["texts"], v["flags"], "vforward"
+    elif r < 0.85:
+        g = Gen(rng, arith=True, bias={"variadic": 0.45})
+        c = g.case()
+        conds = [c["text"]] + [g.arith_expr_top() for _ in range(rng.randint(1, 3))]
+        defs, cmd, flags, src = c["defs"], c["cmd"], c["flags"], "arith"
+    else:
+        c = gen_paste_painted(rng, arith=True)
+        conds = [c["text"]]
+        for _ in range(rng.randint(1, 2)):
+            conds.append(re.sub(r"\S+\s+\d+$", "%s %d" % (rng.choice(["==", "<", ">="]), rng.choice([1, 2, 3, 4, 5, 7])), c["text"]))
+        defs, cmd, flags, src = c["defs"], [], c["flags"], "painted"
+    base = {"defs": defs, "cmd": cmd, "text": ""}
+    steps = history_steps(rng, base)
+    layout = rng.choice(["platforms", "platforms", "tus", "tus", "twice", "grid"])
+    if layout == "platforms":      # one file compiled for 2-3 platforms
+        units = [["P%d" % i, 0, st] for i, st in enumerate(steps)]
+        header = rng.random() < 0.4
+    elif layout == "tus":          # one platform, 2-3 translation units including the same header
+        units = [["P0", i, st] for i, st in enumerate(steps)]
+        header = True
+    elif layout == "twice":        # the same file listed twice for one platform (same options)
+        units = [["P0", 0, steps[0]], ["P0", 0, steps[0]]]
+        header = rng.random() < 0.4
+    else:                          # 2 platforms x 2 translation units
+        units = [["P%d" % (i // 2), i % 2, steps[i % len(steps)]] for i in range(4)]
+        header = True
+    return {"origin": "history-find:" + src, "defs": defs, "cmd": cmd, "conds": conds, "units": units, "header": header,
+            "layout": layout, "flags": flags}
+
+
+def find_history_files(job, conds):
+    """file texts of the job: ({relative name: text}, {line number in a translation unit: (condition index, branch)})"""
+    define_lines = ["#define " + d for d in job["defs"]]
+    head = ['#include "m.h"'] if job["header"] else define_lines
+    lines = list(head)
+    markers = {}
+    for i, c in enumerate(conds):
+        lines.append("#if " + c)
+        lines.append("int t_%d;" % i)
+        markers[len(lines)] = (i, True)
+        lines.append("#else")
+        lines.append("int f_%d;" % i)
+        markers[len(lines)] = (i, False)
+        lines.append("#endif")
+    files = {}
+    if job["header"]:
+        files["m.h"] = "\n".join(define_lines) + "\n"
+    for tu in sorted({u[1] for u in job["units"]}):
+        files["t%d.c" % tu] = "\n".join(lines) + "\n"
+    return files, markers
+
+
+def find_history_observe(cb, job, conds, root):
+    """finder.find on the job's files -> {(platform, tu): {condition index: sorted list of branches attributed}} | {"exc": name}"""
+    import os
+
+    from codebasin import CodeBase, finder
+    from codebasin import preprocessor as pp
+
+    files, markers = find_history_files(job, conds)
+    for name, text in files.items():
+        with open(os.path.join(root, name), "w") as f:
+            f.write(text)
+    cfg = {}
+    for plat, tu, extra in job["units"]:
+        cfg.setdefault(plat, []).append({"file": os.path.join(root, "t%d.c" % tu), "defines": list(job["cmd"]) + list(extra),
+                                         "include_paths": [], "include_files": []})
+    old = signal.signal(signal.SIGALRM, _alarm)
+    signal.setitimer(signal.ITIMER_REAL, 4 * TIME_LIMIT)
+    try:
+        st = finder.find(root, CodeBase(root), cfg, summarize_only=False)
+        got = {}
+        for tu in sorted({u[1] for u in job["units"]}):
+            path = os.path.join(root, "t%d.c" % tu)
+            tree, amap = st.get_tree(path), st.get_map(path)
+            for nd in tree.walk():
+                if type(nd).__name__ != "CodeNode":
+                    continue
+                for ln in nd.lines:
+                    if ln in markers:
+                        i, br = markers[ln]
+                        for plat in amap[nd]:
+                            got.setdefault((plat, tu), {}).setdefault(i, set()).add(br)
+        return {"ok": {k: {i: sorted(v) for i, v in d.items()} for k, d in got.items()}}
+    except _Timeout:
+        return {"exc": "timeout"}
+    except Exception as e:  # noqa
+        return {"exc": type(e).__name__ + ": " + str(e)[:120]}
+    finally:
+        signal.setitimer(signal.ITIMER_REAL, 0)
+        signal.signal(signal.SIGALRM, old)
+
+
+def gcc_find_history(job, conds, root, plat_tu_extra):
+    """branches gcc selects for one unit (translation unit file + command line) | None when gcc says anything"""
+    import os
+
+    tu, extra = plat_tu_extra
+    argv = ["gcc", "-E", "-P", "-x", "c", "-std=gnu11", "-undef", "-nostdinc", "-I", root] + \
+           ["-D" + c for c in list(job["cmd"]) + list(extra)] + [os.path.join(root, "t%d.c" % tu)]
+    try:
+        r = subprocess.run(argv, capture_output=True, text=True, timeout=20)
+    except subprocess.TimeoutExpired:
+        return None
+    if r.returncode != 0 or r.stderr.strip():
+        return None
+    return {i: ("int t_%d;" % i) in r.stdout for i in range(len(conds))}
+
+
+def run_find_history(ctx, drv, cb, job, root, report=None):
+    """One finder.find run over the job's files.  Expected, per unit (platform, translation unit, command line) and condition:
+    the truth value of the Prosser expansion under the table in force for THAT unit - it does not depend on which other platforms
+    or translation units evaluated the shared `#define` nodes before.  Conditions the spec does not assign a truth value for
+    every unit are left out of the files (they would abort the whole run by design of the code)."""
+    import os
+
+    if drv is None:
+        return
+    tables = []
+    for plat, tu, extra in job["units"]:
+        tables.append(list(job["cmd"]) + list(extra))
+    want = {}   # (unit index, original condition index) -> truth
+    model = {}
+    peak = 0
+    keep = []
+    for ci, c in enumerate(job["conds"]):
+        ok = True
+        for ui, cmd in enumerate(tables):
+            R = ask(ctx, drv, {"op": "c03", "defs": job["defs"], "cmd": cmd, "text": c, "old": False})
+            if R is None:
+                ok = False
+                break
+            t = _cond_truth_from(R, "spec")
+            if t is None or "unspec" in R.get("spec", {}):
+                ok = False
+                break
+            want[(ui, ci)] = t
+            model[(ui, ci)] = _cond_truth_from(R, "model")
+            peak = max(peak, R.get("peak", 0))
+        if ok:
+            keep.append(ci)
+        else:
+            ctx.dist["history-find:condition outside WF (left out)"] += 1
+    ctx.dist["history-find:jobs"] += 1
+    if not keep:
+        ctx.dist["history-find:no well-formed condition"] += 1
+        return
+    conds = [job["conds"][ci] for ci in keep]
+    small = {k: job[k] for k in ("origin", "defs", "cmd", "conds", "units", "header", "layout")}
+    os.makedirs(root, exist_ok=True)
+    obs = find_history_observe(cb, job, conds, root)
+    groups = {}
+    for ui, (plat, tu, extra) in enumerate(job["units"]):
+        groups.setdefault((plat, tu), []).append(ui)
+    ctx.count(key="history-find:" + job["layout"])
+    ctx.dist["history-find:units=%d" % len(job["units"])] += 1
+    for f in job.get("flags", []):
+        ctx.dist["flag:" + f] += 1
+    exp_all = {}
+    for (plat, tu), uis in groups.items():
+        exp_all[(plat, tu)] = {k: sorted({want[(ui, ci)] for ui in uis}) for k, ci in enumerate(keep)}
+    if len({json.dumps(sorted(v.items())) for v in exp_all.values()}) > 1 or any(len(set(sum(v.values(), []))) > 1 for v in exp_all.values()):
+        ctx.nontrivial.add("hfind|" + json.dumps(small, sort_keys=True))
+    if sum(1 for x in ctx.samples if str(x.get("origin", "")).startswith("history-find")) < 2:
+        ctx.sample(small, cap=10)
+    if report is not None:
+        report.update({"conditions": conds, "expected": {"%s/t%d.c" % k: v for k, v in exp_all.items()},
+                       "implementation": ({"%s/t%d.c" % k: v for k, v in obs["ok"].items()} if "ok" in obs else obs)})
+    kcase = {"defs": job["defs"], "cmd": sorted({c for t in tables for c in t}), "text": " ".join(conds)}
+    known_ids = {k["id"] for k in ctx.known}
+
+    def known():
+        for fid, pred in CLASSIFIERS:
+            if fid in ("D38", "D42", "D12") and fid in known_ids and pred(kcase, {"peak": peak}):
+                k = next(k for k in ctx.known if k["id"] == fid)
+                ctx.known_finding(fid, k["what_fails"])
+                ctx.dist["known:" + fid] += 1
+                return True
+        return False
+
+    if "exc" in obs:
+        gs = [gcc_find_history(job, conds, root, (tu, extra)) for _p, tu, extra in job["units"]] if gcc_available() else []
+        if any(g is None for g in gs):
+            ctx.dist["history-find:run fails, gcc diagnoses (not judged)"] += 1
+            return
+        if not known():
+            ctx.violation(f"finder.find fails ({obs['exc']}) on {job['layout']} layout although every controlling expression has a truth value "
+                          f"by the Prosser expansion for every platform / translation unit: {conds}", dict(small, conds=conds))
+        return
+    for (plat, tu), uis in groups.items():
+        got = obs["ok"].get((plat, tu), {})
+        for k, ci in enumerate(keep):
+            exp = exp_all[(plat, tu)][k]
+            g = got.get(k, [])
+            mod = sorted({model[(ui, ci)] for ui in uis if model[(ui, ci)] is not None})
+            if mod and g != mod:
+                ctx.corr_break("c03(history-find)", dict(small, conds=conds, failing={"platform": plat, "tu": tu, "cond": k}), g, mod)
+            ctx.dist["history-find:conditions judged"] += 1
+            if g == exp:
+                ctx.dist["history-find:impl==spec"] += 1
+                continue
+            # second opinion (unspecified nesting, C11 6.10.3.4p4): gcc on the same files and command line
+            if gcc_available():
+                gg = sorted({(gcc_find_history(job, conds, root, (tu, job["units"][ui][2])) or {}).get(k) for ui in uis} - {None})
+                if gg and gg == g and gg != exp:
+                    ctx.dist["impl!=spec but ==gcc (unspecified nesting, not judged)"] += 1
+                    continue
+            if known():
+                continue
+            which = [i for i, u in enumerate(job["units"]) if (u[0], u[1]) == (plat, tu)]
+            ctx.violation(
+                f"[{job['layout']}: unit {which[0] + 1} of {len(job['units'])} that evaluate the same #define directives] "
+                f"`#if {conds[k]}` in t{tu}.c for platform {plat} (-D {tables[which[0]]}): branches attributed {g}, the conforming "
+                f"expansion selects {exp}", dict(small, conds=conds, failing={"platform": plat, "tu": tu, "cond": k, "got": g, "want": exp}))
+            return
+
+HISTORY_WITNESSES = [
+    # C11 6.10.3.5 EXAMPLE 7 (variable arguments), evaluated three times on the same directive nodes
+    {"defs": ["debug(...) fprintf(stderr, __VA_ARGS__)", "report(test, ...) ((test)?puts(#test): printf(__VA_ARGS__))"],
+     "text": "debug(1); debug(2, x); report(x>y, 3, x, y);", "steps": [[], [], ["x=7"]], "flags": ["variadic", "hash"],
+     "origin": "history-nodes:C11 6.10.3.5 EXAMPLE 7"},
+    # C11 6.10.3.5 EXAMPLE 3 under two platforms that differ in a command-line definition
+    {"defs": ["f(a) f(x * (a))", "g f", "t(a) a"], "text": "f(y+1) + f(f(z)) % t(t(g)(0) + t)(1);", "steps": [["x=3"], ["x=2"], []],
+     "flags": ["recursion"], "origin": "history-nodes:C11 6.10.3.5 EXAMPLE 3"},
+]
+
+
+def run_extensions(ctx, drv, cb, search=False, use_gcc=False):
+    """streams added after the sixth round of seeded changes: painted names as operands of `##`; re-evaluation histories of shared
+    `#define` nodes, in process and through finder.find.  They draw from ctx.rng AFTER the main loop, so the main stream of a given
+    VERIF_SEED is what it was."""
+    if len(ctx.violations) >= 20 or (search and ctx.violations):
+        return
+    t0 = time.time()
+    ctx.c03_deadline = max(ctx.c03_deadline, t0) + (120.0 if (ctx.thorough() or search) else 40.0)
+    rng = ctx.rng
+    scale = min(ctx.budget_scale, 4.0) / ctx.budget_scale   # the search multiplies budgets by 8; these streams are dense, x4 is plenty
+    # --- 1. painted names pasted
+    for i in range(int(ctx.n(800, 4000) * scale)):
+        if len(ctx.violations) >= 20 or (search and ctx.violations) or out_of_time(ctx):
+            break
+        c = gen_paste_painted(rng, arith=i % 4 == 3)
+        c["origin"] = "random-painted"
+        check_case(ctx, drv, cb, c, gcc=use_gcc and i % 5 == 0)
+        ctx.dist["painted:cases"] += 1
+        if i < 2:
+            ctx.sample({k: c[k] for k in ("defs", "text", "origin")}, cap=8)
+    # --- 2. histories on shared directive nodes (token streams and `#if` truth)
+    jobs = [dict(w) for w in HISTORY_WITNESSES]
+    for _ in range(int(ctx.n(800, 4000) * scale)):
+        c = gen_history_case(rng)
+        c["steps"] = history_steps(rng, c)
+        jobs.append(c)
+    for job in jobs:
+        if len(ctx.violations) >= 20 or (search and ctx.violations) or out_of_time(ctx):
+            break
+        run_node_history(ctx, drv, cb, job)
+    # --- 3. histories through finder.find (branch attributed per platform / translation unit)
+    if drv is not None:
+        with core.Scratch() as d:
+            for j in range(int(ctx.n(200, 1200) * scale)):
+                if len(ctx.violations) >= 20 or (search and ctx.violations) or out_of_time(ctx):
+                    break
+                job = gen_find_history_job(rng)
+                root = str(d / ("j%d" % j))
+                try:
+                    run_find_history(ctx, drv, cb, job, root)
+                finally:
+                    shutil.rmtree(root, ignore_errors=True)
+    ctx.extra["extension_streams_wall_s"] = round(time.time() - t0, 1)
+    ctx.extra["extension_streams"] = {k: v for k, v in sorted(ctx.dist.items())
+                                      if k.startswith(("painted:", "history-", "flag:painted", "flag:vforward", "flag:targeted:paste_painted", "flag:targeted:vforward"))}
+    print("C03 extension streams: " + json.dumps({k: ctx.dist[k] for k in ("painted:cases", "history-nodes:jobs", "history-nodes:steps", "history-find:jobs",
+                                                                            "history-find:conditions judged", "history-find:impl==spec")})
+          + f" in {ctx.extra['extension_streams_wall_s']} s")
+
+
+# --------------------------------------------------------------------------------------------
 # entry points
 # --------------------------------------------------------------------------------------------
 RULE = ("inputs = (macro table of <= 6 object-/function-like macros with bodies from the grammar {identifiers, numbers, operators, "
@@ -984,7 +1572,16 @@ RULE = ("inputs = (macro table of <= 6 object-/function-like macros with bodies 
         "chains with empty operands, function-like names at the end of a replacement list completed by following `(...)` groups, unused "
         "variadic parameters, literals spelled like parameters, macros / parameters named None, wrong-arity calls inside operands of # / ##, "
         "arguments spelled like parameters of a pasting macro; an arithmetic family "
-        "`F(args) <op> k` observed through IfNode.evaluate_for_platform; exhaustive object-like tables over 2 (quick) / 3 (thorough) names. "
+        "`F(args) <op> k` observed through IfNode.evaluate_for_platform; exhaustive object-like tables over 2 (quick) / 3 (thorough) names; "
+        "a family in which a name under replacement (the macro's own or an enclosing macro's) reaches `##` as left or right operand "
+        "through 0-2 pre-expanding indirections (fixed or variadic), the pasted name being an object-like macro, a function-like macro "
+        "completed by following tokens, undefined, a second such paste, the disabled name itself or a macro referring back to it; a family "
+        "of variadic macros forwarding their variable arguments and commas to another macro's argument list (counting idiom with padding, "
+        "overloading on the number of arguments, applied macro names, named variadics, nesting) invoked with 0-4 variable arguments; "
+        "re-evaluation HISTORIES: the `#define` directives of a table are parsed once and evaluated 2-3 times, each time for a new Platform "
+        "with its own -D definitions (in process: token stream and `#if` truth per evaluation; through finder.find: one file for 2-3 "
+        "platforms, 2-3 translation units including one header, the same file listed twice, 2 platforms x 2 units - branch attributed per "
+        "platform and unit), every evaluation judged against the Prosser spec for the table in force at that evaluation. "
         "Well-formed = the Prosser spec assigns a result (no constraint violation, no undefined behaviour; thorough: gcc -E silent and "
         "equal to the spec). Non-trivial = distinct well-formed (table, text) where at least one macro is replaced.")
 
@@ -1010,6 +1607,13 @@ ASSUMPTIONS = [
     "C03.funlike_conforms_partial / funlike_simple_conforms_partial themselves, budget d = |tbl|+2, argument bound L = 64): distribution "
     "keys `proved_fragment:*`; inside the fragment the specification side of the theorem (Prosser's algorithm on the table and text "
     "translated from the model's lexer and #define parser) is compared with the oracle (Prosser's algorithm behind its own lexer)",
+    "histories through finder.find contain only controlling expressions to which the Prosser expansion + the real ExpressionEvaluator assign a "
+    "truth value for every unit of the run (an unevaluable #if aborts the whole finder.find run by design of the code, which C18 judges); a "
+    "deviating branch counts only if `gcc -E` on the same files and command line does not select the same branch (unspecified nesting), and a "
+    "failing run only if gcc is silent on every unit",
+    "a history evaluates directive nodes that are shared between evaluations, as ParserState.trees shares them between platforms and "
+    "translation units; the expected result of an evaluation depends on nothing but the table in force (the -D definitions of that unit and "
+    "the directives evaluated for it) - the property quantifies over macro tables and invocations and gives earlier evaluations no influence",
     "spec validation against gcc -E -P (thorough tier) compares pp-token spellings, string literals modulo white space (gcc keeps a blank "
     "for an empty argument inside stringified text, which the standard leaves open); inputs with `defined` in the text are validated "
     "through `#if` truth only, because gcc -E evaluates `defined` only inside #if",
@@ -1107,13 +1711,15 @@ def run(ctx, drv, search=False):
             c = gen_case(ctx.rng, arith=arith, bias=bias)
             c["origin"] = "random-arith" if arith else "random"
         check_case(ctx, drv, cb, c, gcc=use_gcc and i % 5 == 0)
+    run_extensions(ctx, drv, cb, search=search, use_gcc=use_gcc)
     total = max(1, ctx.dist["cases"])
     ctx.extra["distribution_fractions"] = {
         k: round(ctx.dist["flag:" + k] / total, 3)
         for k in ("hash", "paste", "variadic", "named_variadic", "recursion", "arg_borne_recursion", "empty_arg", "nested_paren_arg",
                   "call_completed_by_following_tokens", "bare_funlike_name", "cmdline", "defined", "literal_arg", "arg_spelled_like_parameter",
                   "literal_spelled_like_parameter", "macro_named_None", "targeted:paste_empty", "targeted:tail_call", "targeted:unused_variadic",
-                  "targeted:literal_param", "targeted:named_none", "targeted:unevaluated_operand", "targeted:arg_like_param")
+                  "targeted:literal_param", "targeted:named_none", "targeted:unevaluated_operand", "targeted:arg_like_param",
+                  "targeted:paste_painted", "targeted:vforward")
     }
     ctx.extra["known_finding_fraction_of_well_formed"] = round(ctx.dist["impl!=spec:known"] / max(1, ctx.dist["wf"]), 4)
     ctx.extra["well_formed_fraction"] = round(ctx.dist["wf"] / total, 3)
@@ -1129,8 +1735,52 @@ def search(ctx, drv):
     run(ctx, drv, search=True)
 
 
+def replay_history(ctx, drv, cb, case):
+    """a stored history case: every step / unit again on implementation, model and spec"""
+    if "history" in case:   # shared directive nodes, in process
+        h = case["history"]
+        base = {"defs": case.get("defs", []), "cmd": case.get("cmd", []), "text": case["text"]}
+        Is = impl_history(cb, base, h["steps"])
+        out = {"history": "the #define directives are parsed once; per step: new Platform, -D of the step, the shared nodes evaluated, text expanded",
+               "failing_step": h.get("step"), "steps": []}
+        for extra, I in zip(h["steps"], Is):
+            c = dict(base, cmd=base["cmd"] + list(extra))
+            st = {"-D": c["cmd"], "implementation": {"tokens": spell(norm_impl(I["ok"])) if "ok" in I else I, "truth_of_#if": I.get("truth")}}
+            if drv is not None:
+                R = drv.ask({"op": "c03", "defs": c["defs"], "cmd": c["cmd"], "text": c["text"]})
+                st["model"] = spell(norm_model(R["model"]["ok"])) if "ok" in R["model"] else R["model"]
+                st["spec"] = spell(norm_spec(R["spec"]["ok"])) if "ok" in R["spec"] else R["spec"]
+            if gcc_available():
+                st["gcc -E -P"] = gcc_expand(c)
+            fresh = impl_run(cb, c)
+            st["implementation, fresh parse of the directives"] = spell(norm_impl(fresh["ok"])) if "ok" in fresh else fresh
+            out["steps"].append(st)
+        return out
+    job = dict(case)
+    job.setdefault("flags", [])
+    rep = {}
+    sub = core.Ctx(ctx.prop, ctx.tier, ctx.seed)
+    with core.Scratch() as d:
+        root = str(d / "j")
+        run_find_history(sub, drv, cb, job, root, report=rep)
+        if gcc_available() and "conditions" in rep:
+            import os
+            os.makedirs(root, exist_ok=True)
+            files, _m = find_history_files(job, rep["conditions"])
+            for name, text in files.items():
+                with open(os.path.join(root, name), "w") as f:
+                    f.write(text)
+            rep["gcc"] = {"%s/t%d.c" % (p_, tu): gcc_find_history(job, rep["conditions"], root, (tu, extra)) for p_, tu, extra in job["units"]}
+            rep["files"] = files
+    rep["judgement"] = [w for w, _c in sub.violations] or "no deviation from the property on this input"
+    rep["configuration"] = [{"platform": p_, "file": "t%d.c" % tu, "defines": list(job.get("cmd", [])) + list(extra)} for p_, tu, extra in job["units"]]
+    return rep
+
+
 def replay(ctx, drv, case):
     cb = core.import_codebasin()
+    if "history" in case or str(case.get("origin", "")).startswith("history-find"):
+        return replay_history(ctx, drv, cb, case)
     if "define" in case:
         from codebasin import preprocessor as pp
         md, ed = impl_define(pp, case["define"])
